@@ -23,9 +23,14 @@
      translated program: C20_handlers_serial / _exclusive (one mutex, abstract transformers),
      C20_rw_sections_atomic (one RWMutex), C20_send_under_lock_deadlocks / _after_unlock_progress,
      C20_recursive_rlock_deadlocks / C20_sequential_rlock_progress (two-party systems),
-     C20_notify_after_state / _before_state_stale (traces of one handler).
+     C20_notify_after_state / _before_state_stale (traces of one handler),
+     C20_deferred_unlock_survives_panics / C20_plain_unlock_blocks_after_panic (deliveries through one
+     wrapper whose handler returns or panics).
    * CHECKERS EVALUATED ON THE GENERATED FACTS, NOT JUSTIFIED AGAINST [steps] (no soundness
-     lemma): wrappers_ok, no_escape, confined, lock_order_ok, no_blocking_send_under_lock,
+     lemma): wrappers_ok, wrappers_unlock_deferred (syntactic: every unlock of a Listener method is a
+     `defer`), no_escape, confined + fetcher_closures_confined (function literals used as status
+     fetcher touch no field / method of the program's controller struct; helper functions of other
+     types are not followed), lock_order_ok, no_blocking_send_under_lock,
      notify_after_state (flat order + depth of the last write / notification; early returns and
      paths are not separated), and no_recursive_lock (a second, coarser evaluation over all
      functions with owner tokens ignored of what the lock-set checker already refuses per entry
@@ -242,3 +247,16 @@ Proof.
       intros j. destruct j as [|[|j]]; cbn; auto.
   - exists 1, 0, "T.f", (WrE "T.f"), [Rel "T.mu"], (Rd "T.f"), []. cbn. repeat split; try discriminate; auto.
 Qed.
+
+(* The Listener wrappers must give the mutex back by a DEFERRED unlock (obligation
+   repo_wrappers_unlock_deferred on the facts regenerated from internal/k8s/listener.go).  Pattern
+   model, on its own small system ([served]: how many deliveries of a sequence get the mutex, each
+   handler returning or panicking; controller-runtime recovers the panic of a reconcile): with a
+   deferred unlock every delivery is served whatever panics; with an unlock written after the call
+   nothing is served after the first panic.  Not tied to the interleaving semantics of [step]. *)
+Theorem C20_deferred_unlock_survives_panics : forall os, served true false os = List.length os.
+Proof. exact deferred_unlock_serves_all. Qed.
+
+Theorem C20_plain_unlock_blocks_after_panic : forall pre post,
+  ~ In Panics pre -> served false false (pre ++ Panics :: post) = S (List.length pre).
+Proof. exact plain_unlock_blocks_after_panic. Qed.
